@@ -234,6 +234,28 @@ pub fn for_each_value(cfg: &Cfg, tag: &str, f: &ValueCheck<'_>) -> Stats {
     });
     total = total.merge(s);
     total.subspace("from_parts with 20-60 variants (proptest)", n5, false);
+    // every CLDR likely-subtags key and value, maximized / minimized: values that only the table
+    // look-ups produce (a table row that stores `und` as text instead of the empty language ...)
+    {
+        let mut lk: Vec<Vec<u8>> = c.likely_keys.iter().chain(c.likely_vals.iter()).map(|s| s.as_bytes().to_vec()).collect();
+        lk.sort();
+        lk.dedup();
+        let n6 = lk.len() as u64 * 3;
+        let s = par_range(n6, |i, st| {
+            let start = &lk[(i / 3) as usize];
+            let ops_: Vec<Op> = match i % 3 {
+                0 => vec![Op::Maximize],
+                1 => vec![Op::Minimize],
+                _ => vec![Op::Maximize, Op::Minimize],
+            };
+            match run_history(start, &ops_) {
+                Some(loc) => f(&loc, &ops::history_case(start, &ops_), st, Count::Hash),
+                None => st.class("history-start-not-accepted(skipped)"),
+            }
+        });
+        total = total.merge(s);
+        total.subspace("every CLDR likelySubtags key and value after maximize / minimize / both", n6, true);
+    }
     // exhaustive short histories
     let alpha = ops::op_alphabet();
     let na = alpha.len() as u64;
